@@ -961,6 +961,7 @@ def default_items(repo):
     return [
         {'file': repo + '/src/lib.rs', 'fn': 'nlimbs', 'lean': 'nlimbs'},
         {'file': repo + '/src/lib.rs', 'fn': 'mask', 'lean': 'mask'},
+        {'file': repo + '/src/bytes.rs', 'fn': 'nbytes', 'lean': 'nbytes'},
         {'file': a + 'mod.rs', 'fn': 'carrying_add', 'lean': 'carrying_add'},
         {'file': a + 'mod.rs', 'fn': 'borrowing_sub', 'lean': 'borrowing_sub'},
         {'file': a + 'mod.rs', 'fn': 'join', 'lean': 'dw_join', 'self_ty': 'u128', 'key': 'u128::join'},
